@@ -1,11 +1,21 @@
-/* C06: the P7 (PAM) header loop of Image::load.  Truncation clause of the property: "any truncated file is rejected with an
- * exception or decodes identically -- never a crash": for EVERY stream (any number of remaining bytes, any line contents)
- * the header loop TERMINATES (loop variant: bytes left in the stream) and ends either with an exception or with ENDHDR;
- * in particular an end of file inside the header (fgets returns an empty line) is rejected with an exception. */
+/* C06: the P7 (PAM) header loop of Image::load.
+ * (1) Truncation clause of the property: "any truncated file is rejected with an exception or decodes identically -- never a crash":
+ *     for EVERY stream (any number of remaining bytes, any line contents) the header loop TERMINATES (loop variant: bytes left in the
+ *     stream) and ends either with an exception or with ENDHDR; an end of file inside the header is rejected with an exception.
+ * (2) "every supported input variant (... P7 including grayscale and alpha tuple types) decodes ...": a WELL-FORMED header -- newline after
+ *     the signature, then only WIDTH / HEIGHT / DEPTH / MAXVAL / TUPLTYPE lines with acceptable arguments, then ENDHDR, and a DEPTH that
+ *     is the tuple type's number of samples (GRAYSCALE 1, GRAYSCALE_ALPHA 2, RGB 3, RGB_ALPHA 4) -- is ACCEPTED, and an accepted header
+ *     yields the width / height / maxval the header says (last occurrence), gray vs colour from the tuple type and the alpha channel
+ *     exactly for the *_ALPHA types (in-memory pixel depth 4, otherwise 3).  (stubs/C06_p7.h: abstract line contents and header ghosts) */
 #ifndef C06C_P7_H
 #define C06C_P7_H
 #include "stubs/C06_p7.h"
 typedef enum { Format_GRAYSCALE_PPM = 0, Format_COLOR_PPM, Format_WINDOWS_BITMAP, Format_PNG } C6Format;
+#define P7_FMT(t) (((t) == T_GRAYSCALE || (t) == T_GRAYSCALE_ALPHA) ? Format_GRAYSCALE_PPM : Format_COLOR_PPM)
+#define P7_MEMDEPTH(t) (((t) == T_GRAYSCALE_ALPHA || (t) == T_RGB_ALPHA) ? 4 : 3)
+#define P7_FILEDEPTH(t) ((t) == T_GRAYSCALE ? 1 : (t) == T_GRAYSCALE_ALPHA ? 2 : (t) == T_RGB ? 3 : 4)
+#define P7_WELL_FORMED (g_hfirst == '\n' && g_hwell && g_hend && (!g_hdepth_seen || g_htup == 0 || g_hdepth == P7_FILEDEPTH(g_htup)))
+#define P7_TUPLE_INV(fmt, depth) (g_htup != 0 ==> ((fmt) == P7_FMT(g_htup) && (depth) == P7_MEMDEPTH(g_htup)))
 void Image_load_p7_header(C6FILE* f, size_t* new_width, size_t* new_height, uint64_t* new_max_value, size_t* new_depth, C6Format* format)
 __CPROVER_requires(__CPROVER_is_fresh(f, sizeof(C6FILE)))
 __CPROVER_requires(__CPROVER_is_fresh(new_width, sizeof(size_t)))
@@ -14,7 +24,12 @@ __CPROVER_requires(__CPROVER_is_fresh(new_max_value, sizeof(uint64_t)))
 __CPROVER_requires(__CPROVER_is_fresh(new_depth, sizeof(size_t)))
 __CPROVER_requires(__CPROVER_is_fresh(format, sizeof(C6Format)))
 __CPROVER_requires(verif_exc == 0)
+__CPROVER_requires(g_hw == *new_width && g_hh == *new_height && g_hmax == *new_max_value && g_htup == 0 && !g_hdepth_seen && g_hwell == 1 && !g_hend)
 __CPROVER_ensures(verif_exc == 0 || verif_exc == EXC_runtime_error || verif_exc == EXC_invalid_argument || verif_exc == EXC_out_of_range)
 __CPROVER_ensures(__CPROVER_old(g_rem) == 0 ==> verif_exc != 0)          /* empty (fully truncated) header is rejected */
-__CPROVER_assigns(verif_exc, g_rem, *new_width, *new_height, *new_max_value, *new_depth, *format);
+__CPROVER_ensures(P7_WELL_FORMED ==> verif_exc == 0)                      /* a well-formed header is accepted */
+__CPROVER_ensures(verif_exc == 0 ==> g_hend)                              /* an accepted header ended with ENDHDR */
+__CPROVER_ensures(verif_exc == 0 ==> (*new_width == g_hw && *new_height == g_hh && *new_max_value == g_hmax))
+__CPROVER_ensures(verif_exc == 0 ==> P7_TUPLE_INV(*format, *new_depth))
+__CPROVER_assigns(verif_exc, g_rem, *new_width, *new_height, *new_max_value, *new_depth, *format, g_hw, g_hh, g_hmax, g_hdepth, g_htup, g_hdepth_seen, g_hwell, g_hend, g_hfirst);
 #endif
